@@ -5,6 +5,7 @@ package sync
 
 import (
 	"context"
+	"time"
 
 	header "github.com/celestiaorg/go-header"
 	zh "github.com/celestiaorg/go-header/internal/zzhdr"
@@ -18,6 +19,7 @@ func ZzC19Flight() {
 	env := zzNewSyncEnv(ctx, K, 1+zz.Choice("stored", 2), 0, true)
 	inner := env.g.head
 	inFlight, maxInFlight, requests := 0, 0, 0
+	firstHangs := zz.Bool("first.request.hangs") // slow peers: the first head request only ends with its caller's timeout
 	var trusted []*zh.Hdr
 	env.g.head = func(c context.Context, opts ...header.HeadOption[*zh.Hdr]) (*zh.Hdr, error) {
 		inFlight++
@@ -30,6 +32,11 @@ func ZzC19Flight() {
 			o(&p)
 		}
 		trusted = append(trusted, p.TrustedHead)
+		if firstHangs && requests == 1 {
+			<-c.Done() // NetworkHeadRequestTimeout fires once nothing else can run
+			inFlight--
+			return nil, c.Err()
+		}
 		h, err := inner(c, opts...) // parks at the gate "getter:head"
 		inFlight--
 		return h, err
@@ -51,6 +58,10 @@ func ZzC19Flight() {
 		}()
 	}
 	zz.Quiesce()
+	if firstHangs {
+		zz.Advance(3 * time.Second) // lets NetworkHeadRequestTimeout (2s) end the hanging request
+		zz.Quiesce()
+	}
 	zz.Reach("quiescent")
 	zz.Assert(maxInFlight <= 1, "concurrent Head() callers never have more than one head request in flight")
 	for _, r := range results {
@@ -63,7 +74,18 @@ func ZzC19Flight() {
 	for _, t := range trusted {
 		zz.Assert(t != nil, "a stale subjective head is refreshed with a request verified against it")
 	}
-	if requests == 1 && C == 2 && results[0].done && results[1].done {
+	// a later call still works: the single-flight slot is released whatever ended the earlier request
+	before := requests
+	lctx, lcancel := context.WithTimeout(ctx, time.Hour)
+	h, err := env.s.Head(lctx)
+	lcancel()
+	zz.Reach("later-call")
+	zz.Assert(err == nil && h != nil, "a later Head() call returns a head")
+	zz.Assert(requests == before+1, "a later Head() call with a stale head issues exactly one new request")
+	if firstHangs {
+		zz.Reach("after-timed-out-request")
+	}
+	if requests == 2 && !firstHangs && C == 2 && results[0].done && results[1].done {
 		zz.Reach("shared")
 		if results[0].err == nil && results[1].err == nil {
 			zz.Assert(results[0].h.H == results[1].h.H, "callers that shared one request see the same head")
